@@ -34,6 +34,47 @@ def strip_cast(t: T) -> T:
         return t
 
 
+BOOL_CALLS = {"any", "all", "array_equal", "isin", "logical_and", "logical_or", "logical_not", "logical_xor", "greater", "less",
+              "equal", "not_equal", "greater_equal", "less_equal", "isclose", "allclose"}
+INT_CASTS = {"jax.numpy.astype", "jax.numpy.int32", "jax.numpy.int16", "jax.numpy.int8", "jax.numpy.int64", "builtins.int",
+             "jax.numpy.asarray", "jax.numpy.array"}
+
+
+def boolean_shaped(t: T) -> bool:
+    """The root of t is a boolean connective, comparison or boolean reduction (used to read
+    `switch(int(b), [f0, f1])` as `cond(b, f1, f0)`)."""
+    t = strip_cast(t)
+    if t.kind == "cmp":
+        return True
+    if t.kind == "const":
+        return isinstance(t.args[0], bool)
+    if t.kind == "un":
+        return t.args[0] in ("not", "~")
+    if t.kind == "bin" and t.args[0] in ("|", "&", "^"):
+        return boolean_shaped(t.args[1]) or boolean_shaped(t.args[2])
+    if t.kind == "bool":
+        return True
+    n = ext_name(t)
+    if n is not None and n.split(".")[-1] in BOOL_CALLS:
+        return True
+    if t.kind == "call" and t.args[0].kind == "attr" and t.args[0].args[1] in ("any", "all", "last", "first", "mid"):
+        return True
+    return False
+
+
+def bool_index(idx: T) -> Optional[T]:
+    """b when idx is an explicit integer cast of a boolean-shaped term b."""
+    n = ext_name(idx)
+    if idx.kind == "copy":
+        return bool_index(idx.args[0])
+    if n in INT_CASTS and idx.args[1]:
+        inner = idx.args[1][0]
+        if boolean_shaped(inner):
+            return inner
+        return bool_index(inner)
+    return None
+
+
 def flatten(t: T, ops: Tuple[str, ...], bool_op: str) -> List[T]:
     t = strip_cast(t)
     if t.kind == "bin" and t.args[0] in ops:
